@@ -291,7 +291,11 @@ pub fn check(v: &View) -> Vec<Violation> {
         let any_after_death = joins.iter().any(|o| matches!(o.res, Some(Res::Joined(_))) && a.dead.is_some_and(|d| o.end.unwrap() > d));
         // consume* whose stop was rejected (actor already gone) fail early without joining: they
         // do not take the handle, but a later join would; only judge when a plain join happened
-        if graceful && somes == 0 && all_ended && any_after_death {
+        // (a join future that had claimed the task - polled, pending - and was then dropped took
+        // the value with it)
+        let claimed_and_dropped = v.ops.iter().any(|x| matches!(x.inner, Op::JoinPoll) && matches!(x.res, Some(Res::Handle(false))))
+            && v.ops.iter().any(|x| matches!(x.inner, Op::JoinDiscard) && matches!(x.res, Some(Res::Ok)));
+        if graceful && somes == 0 && all_ended && any_after_death && !claimed_and_dropped {
             out.push(violation(P, "value-lost", "", format!("actor {aidx}: terminated gracefully, {} join operations completed, none returned the value", joins.len())));
         }
         // detach leaves the actor running and answering
